@@ -30,6 +30,7 @@ type LifecycleInput struct {
 type lcRun struct {
 	blockedFetch           bool // replication positions are realised as a fetch that cannot complete (provider cut off)
 	sharedOpts             bool // one CreateDBOptions value reused for the sibling and the main database
+	slowRead               bool // the load in flight is held inside a block read, not before it
 	snapLoad               bool // the load in flight is a LoadFromSnapshot that waits for the block of a saved head
 	snapGone               cid.Cid
 	snapGoneData           []byte
@@ -266,8 +267,20 @@ func (r *lcRun) position(w, rp, l int) {
 		h.ParkAt("load.head.begin", r.mine(0))
 		r.loadDone = make(chan error, 1)
 		go func() { r.loadDone <- r.main.S.Load(ctx, -1) }()
-		if r.parkedAt("load.head.begin", 0, 400*time.Millisecond) == nil {
+		lp := r.parkedAt("load.head.begin", 0, 400*time.Millisecond)
+		if lp == nil {
 			r.res.note("%s: load did not reach its head (blocked behind the join mutex)", r.bid)
+		} else if r.slowRead {
+			// the load goes on and is held in the middle of a block read (a slow disk): the read completes after the close
+			inst := r.inst.P
+			h.ParkAt("sim.get", func(args []interface{}) bool { return len(args) > 0 && args[0] == interface{}(inst) })
+			h.Release(lp)
+			if parkedFor("sim.get", nil, 2*time.Second) == nil {
+				r.res.note("%s: the load reads no block", r.bid)
+			} else {
+				r.res.Stats["loads_held_in_a_block_read"]++
+			}
+			h.Unpark("sim.get")
 		}
 	}
 }
@@ -275,6 +288,7 @@ func (r *lcRun) position(w, rp, l int) {
 func (r *lcRun) run(b Behaviour, idx int) {
 	r.sharedOpts = idx%2 == 1
 	r.snapLoad = idx%5 == 3
+	r.slowRead = !r.snapLoad && idx%4 == 2
 	r.snapGone, r.snapGoneData = cid.Undef, nil
 	r.blockedFetch = idx%3 == 2
 	if err := r.setup(fmt.Sprintf("lc%d", idx)); err != nil {
@@ -313,7 +327,7 @@ func (r *lcRun) run(b Behaviour, idx int) {
 	var goneData []byte
 	if r.snapGone.Defined() {
 		gone, goneData = r.snapGone, r.snapGoneData
-	} else if l == 3 || (l == 2 && idx%2 == 0) {
+	} else if !r.slowRead && (l == 3 || (l == 2 && idx%2 == 0)) {
 		if p := r.parkedAt("load.head.begin", 0, 100*time.Millisecond); p != nil && len(p.Args) > 1 {
 			if he, ok := p.Args[1].(ipfslog.Entry); ok && he != nil {
 				for _, peer := range []*sim.Peer{r.inst.P, r.rem.P} {
